@@ -39,6 +39,7 @@ func RemoveOn(scope app.Scope, eventID int, file filesystem.File) error {
 			files: []filesystem.File{file},
 		}
 		scope.On(eventID, def.Remove)
+		scope.SetValue(insKey, def)
 	} else {
 		def = fileDeferIns.(*FileDefer)
 		def.Add(file)
